@@ -1,6 +1,8 @@
 (* Property C07 - motion is reported exactly per the configured thresholds (fixed threshold). *)
 From Coq Require Import List ZArith Bool.
 From TR Require Import model.Ring model.Detector model.DetSpec proofs.DetC07.
+(* constants and wiring read from the Go sources on every run *)
+From TR Require Import proofs.FactsDet.
 Import ListNotations.
 Open Scope Z_scope.
 
